@@ -49,7 +49,9 @@ class LogCap(logging.Handler):
 
 
 def logs_str(recs):
-    return ";".join("%s:%s" % (lv, cps(msg)) for lv, msg in recs) if recs else "-"
+    """levels of the INFO+ records only: the wording of a message is not part of any property, so a harmless
+    rewording must not break the correspondence (content-independence of the messages is checked by paired runs)"""
+    return ";".join(lv for lv, msg in recs) if recs else "-"
 
 
 class FaCfg:
@@ -135,7 +137,10 @@ def model_out(reply):
         return reply
     parts = reply.split(" ")
     out = subst_placeholders(uncps(parts[1]))
-    return "ok %s %s" % (cps(out), parts[2] if len(parts) > 2 else "-")
+    logs = parts[2] if len(parts) > 2 else "-"
+    if logs != "-":
+        logs = ";".join(x.split(":")[0] for x in logs.split(";"))
+    return "ok %s %s" % (cps(out), logs)
 
 
 def out_text(reply):
